@@ -1936,6 +1936,59 @@ def _expand_dispatch_tables(trees):
         ast.fix_missing_locations(t)
 
 
+def _hoist_helper_calls(trees):
+    """`S[h(args)]` - a call of a private module-level helper with a multi-statement body, nested inside a simple statement
+    whose only other calls are the ones h's result is an argument of - is `_h_k = h(args); S[_h_k]` (same evaluation
+    order: h ran first anyway).  The hoisted call is then a whole statement, which the helper inliner understands."""
+    anchors = anchor_names()
+    helpers = {}
+    for t in trees:
+        for f in t.body:
+            if isinstance(f, ast.FunctionDef) and f.name.startswith("_") and not f.name.startswith("__") and f.name not in anchors and not f.decorator_list:
+                body = [s for s in f.body if not (isinstance(s, ast.Expr) and isinstance(s.value, ast.Constant))]
+                if len(body) >= 2:
+                    helpers.setdefault(f.name, []).append(f)
+    helpers = {k for k, v in helpers.items() if len(v) == 1}
+    if not helpers:
+        return
+    counter = [0]
+    for t in trees:
+        for F in [n for n in ast.walk(t) if isinstance(n, (ast.FunctionDef, ast.AsyncFunctionDef))]:
+            for owner in ast.walk(F):
+                for fld in ("body", "orelse", "finalbody"):
+                    blk = getattr(owner, fld, None)
+                    if not (isinstance(blk, list) and blk and isinstance(blk[0], ast.stmt)):
+                        continue
+                    i = 0
+                    while i < len(blk):
+                        st = blk[i]
+                        i += 1
+                        if not isinstance(st, (ast.Assign, ast.Return, ast.Expr, ast.AugAssign)) or getattr(st, "value", None) is None:
+                            continue
+                        calls = [c for c in ast.walk(st.value) if isinstance(c, ast.Call)]
+                        inner = [c for c in calls if isinstance(c.func, ast.Name) and c.func.id in helpers and c is not st.value]
+                        if len(inner) != 1:
+                            continue
+                        c = inner[0]
+                        if any(isinstance(x, (ast.Call, ast.Await, ast.NamedExpr, ast.Starred)) for a in list(c.args) + [k.value for k in c.keywords] for x in ast.walk(a)):
+                            continue
+                        if not all(o is c or any(x is c for x in ast.walk(o)) for o in calls):
+                            continue  # another call could run before it
+                        if any(isinstance(x, (ast.IfExp, ast.BoolOp, ast.Lambda, ast.ListComp, ast.GeneratorExp, ast.DictComp, ast.SetComp)) and any(y is c for y in ast.walk(x)) for x in ast.walk(st.value)):
+                            continue  # conditionally evaluated
+                        counter[0] += 1
+                        nm = f"_{c.func.id.strip('_')}_{counter[0]}"
+                        new_call = ast.Call(func=c.func, args=c.args, keywords=c.keywords)
+                        tmp = ast.copy_location(ast.Assign(targets=[ast.Name(id=nm, ctx=ast.Store())], value=ast.copy_location(new_call, c)), st)
+                        ref = ast.copy_location(ast.Name(id=nm, ctx=ast.Load()), c)
+                        c.__class__ = ast.Name
+                        c.__dict__.clear()
+                        c.__dict__.update(ref.__dict__)
+                        blk.insert(i - 1, ast.fix_missing_locations(tmp))
+                        i += 1
+        ast.fix_missing_locations(t)
+
+
 def _flatten_mixins(trees):
     """A private helper base class (name starts with `_`, no rule names it, no bases of its own beyond object / ABC,
     no `__init__`, used as a base by exactly one class of the package and referenced nowhere else) is merged into that
@@ -2052,6 +2105,7 @@ class Program:
                 parsed.append((modname, path, rel, source, tree, is_pkg))
         if self.inline_helpers:
             _expand_dispatch_tables([t[4] for t in parsed])
+            _hoist_helper_calls([t[4] for t in parsed])
             _flatten_mixins([t[4] for t in parsed])
             _inline_helpers([t[4] for t in parsed])
             _inline_module_helpers([t[4] for t in parsed])
